@@ -692,3 +692,4 @@ MANIFEST = {
     "technique": "sibling (port) conformance against the reference source via canonical forms + rational normal forms (AST)",
 }
 MANIFEST["text"] += " radon_torch's disc mask is reduced to the relation of the KEPT region (multiply by mask / masked_fill / where) and compared with the reference's `dist > radius²` outside test (closed disc)."
+MANIFEST["text"] += ' R8: forward taint of the projection angles from `theta` through locals and module helpers up to the trigonometric calls — no modular reduction, clamping, rounding or re-ordering on the way.'
